@@ -764,8 +764,11 @@ def set_trickery_enabled(enabled: Optional[bool]) -> None:
 
 def _check_trickery_available() -> bool:
     global _can_use_trickery
-    if _can_use_trickery is not None:
-        return _can_use_trickery
+    # (read the setting once: set_trickery_enabled(None) on another thread
+    # may reset it between a test and a second read)
+    setting = _can_use_trickery
+    if setting is not None:
+        return setting
     with _trickery_lock:
         if _can_use_trickery is not None:  # pragma: no cover
             return _can_use_trickery
